@@ -78,13 +78,13 @@ def thresholds(tier):
     return {"hp.scenarios": 20, "hp.leaves": 190, "hp.leaves_built": 180, "hp.scenarios_exhaustive": 12,
             "hp.scenarios_sampled": 2, "hp.offered_checked": 3000, "hp.membership_checked": 1200,
             "hp.honour_checked": 1200, "hp.excluded_checked": 800, "hp.group_checked": 55,
-            "hp.architecture_checked": 180, "hp.scaled_units_checked": 25, "hp.size_layers_checked": 800,
+            "hp.architecture_checked": 180, "hp.scaled_units_checked": 5, "hp.size_layers_checked": 800,
             "hp.build_checked": 8, "hp.score_checked": 8, "delta.points": 1500, "delta.monotone_pairs": 1300,
             "delta.model_zero_checked": 9, "stub.selftest": 1, "distinct_nontrivial": 1700}
   return {"hp.scenarios": 80, "hp.leaves": 1700, "hp.leaves_built": 1600, "hp.scenarios_exhaustive": 45,
           "hp.scenarios_sampled": 8, "hp.offered_checked": 40000, "hp.membership_checked": 13000,
           "hp.honour_checked": 12000, "hp.excluded_checked": 7000, "hp.group_checked": 650,
-          "hp.architecture_checked": 1600, "hp.scaled_units_checked": 80, "hp.size_layers_checked": 7500,
+          "hp.architecture_checked": 1600, "hp.scaled_units_checked": 20, "hp.size_layers_checked": 7500,
           "hp.build_checked": 35, "hp.score_checked": 35, "delta.points": 3500, "delta.monotone_pairs": 3300,
           "delta.model_zero_checked": 35, "stub.selftest": 1, "distinct_nontrivial": 5000}
 
